@@ -59,3 +59,6 @@ PROP = dict(
     assumptions=["deferred closure semantics of Go; database/sql and pgx end the transaction on Commit (success or failure) and on context cancel"],
     trusted=["translator/cmd/txskel (go/ast, lexical scope resolution)"],
 )
+
+from ..pin import add_pin
+PROP = add_pin(PROP)
